@@ -1064,6 +1064,236 @@ func runC20(w *World, r *Report) {
 		}
 	}
 
+	// … and a node added to a compiled workflow leaves a trace that test reads: the Add*Node methods of Workflow
+	// drop the inner graph's error (they return the node, not an error), so ErrGraphCompiled has to come from the next Compile
+	{
+		wfc := w.Fn("compose", "Workflow.compile")
+		fCompiled := w.Field("compose", "graph", "compiled")
+		wfT := w.Named("compose", "Workflow")
+		graphT := w.Named("compose", "graph")
+		isWfField := func(f *types.Var) bool {
+			st := wfT.Underlying().(*types.Struct)
+			for i := 0; i < st.NumFields(); i++ {
+				if sameField(st.Field(i), f) {
+					return true
+				}
+			}
+			return false
+		}
+		// Workflow fields read on the compiled arm of compile
+		readOnArm := map[string]bool{}
+		instrs(wfc, func(in ssa.Instruction) {
+			iff, ok := in.(*ssa.If)
+			if !ok || !isLoadOfField(iff.Cond, fCompiled) {
+				return
+			}
+			arm := iff.Block().Succs[0]
+			for _, b := range wfc.Blocks {
+				if b != arm && !arm.Dominates(b) {
+					continue
+				}
+				for _, x := range b.Instrs {
+					if fa, ok := x.(*ssa.FieldAddr); ok {
+						if f := fieldVarOfAddr(fa); f != nil && isWfField(f) {
+							readOnArm[f.Name()] = true
+						}
+					}
+					// … or in the helper the arm calls (the pending test moved into a method)
+					if c, ok := x.(*ssa.Call); ok {
+						if sc := staticCallee(c); sc != nil && w.inRepo(sc) {
+							instrs(sc, func(y ssa.Instruction) {
+								if fa, ok := y.(*ssa.FieldAddr); ok {
+									if f := fieldVarOfAddr(fa); f != nil && isWfField(f) {
+										readOnArm[f.Name()] = true
+									}
+								}
+							})
+						}
+					}
+				}
+			}
+		})
+		// Workflow fields written under g.compiled in a function
+		writesUnderCompiled := func(fn *ssa.Function) []string {
+			var out []string
+			for _, fw := range fieldWrites(fn) {
+				if fw.field == nil || !isWfField(fw.field) {
+					continue
+				}
+				if hasGuard(fw.in.Block(), func(g guard) bool { return g.pol && isLoadOfField(g.cond, fCompiled) }) {
+					out = append(out, fw.field.Name())
+				}
+			}
+			return out
+		}
+		ms := types.NewMethodSet(types.NewPointer(wfT))
+		for i := 0; i < ms.Len(); i++ {
+			m := w.Prog.FuncValue(ms.At(i).Obj().(*types.Func))
+			if m == nil || m.Blocks == nil {
+				continue
+			}
+			var dropped ssa.CallInstruction
+			var helpers []*ssa.Function
+			instrs(m, func(in ssa.Instruction) {
+				c, ok := in.(*ssa.Call)
+				if !ok {
+					return
+				}
+				sc := staticCallee(c)
+				if sc == nil {
+					return
+				}
+				if rv := sc.Signature.Recv(); rv != nil && namedOf(rv.Type()) != nil && namedOf(rv.Type()).Obj() == graphT.Obj() && strings.HasPrefix(sc.Name(), "Add") && strings.HasSuffix(sc.Name(), "Node") && len(*c.Referrers()) == 0 {
+					dropped = c
+				} else if rv != nil && namedOf(rv.Type()) != nil && namedOf(rv.Type()).Origin().Obj() == wfT.Obj() {
+					helpers = append(helpers, sc)
+				}
+			})
+			if dropped == nil {
+				continue
+			}
+			// the helpers' own Workflow-method callees too (a flag set in a helper of the helper)
+			seenH := map[*ssa.Function]bool{m: true}
+			for i := 0; i < len(helpers); i++ {
+				h := helpers[i]
+				if seenH[h] {
+					continue
+				}
+				seenH[h] = true
+				instrs(h, func(in ssa.Instruction) {
+					if c, ok := in.(*ssa.Call); ok {
+						if sc := staticCallee(c); sc != nil && !seenH[sc] {
+							if rv := sc.Signature.Recv(); rv != nil && namedOf(rv.Type()) != nil && namedOf(rv.Type()).Origin().Obj() == wfT.Obj() {
+								helpers = append(helpers, sc)
+							}
+						}
+					}
+				})
+			}
+			var traced []string
+			for _, f := range append([]*ssa.Function{m}, helpers...) {
+				for _, nm := range writesUnderCompiled(f) {
+					if readOnArm[nm] {
+						traced = append(traced, nm)
+					}
+				}
+			}
+			r.Check(len(traced) > 0, "C20.workflow-compile-once", "Workflow."+m.Name()+" drops the inner graph's error: a refusal because the workflow is compiled is remembered", dropped.Pos(), "a Workflow field written under g.compiled here (or in the helper it calls) is read on the compiled arm of Workflow.compile", "the ErrGraphCompiled of the inner graph is discarded and nothing else records the attempt: a node added to a compiled workflow (new, duplicate or reserved key alike) is dropped without any error and the next Compile returns nil — AddInput, AddDependency, SetStaticValue and AddBranch on a compiled workflow all make the next Compile return ErrGraphCompiled, Graph returns it from the Add call, Chain from the next Compile")
+		}
+	}
+
+	// ---- inferred-type-into-own-node
+	r.Rule("C20.inferred-type-into-own-node", "the type the graph infers for a pass-through node is written through g.nodes into the node's runnable: what addNode stores into g.nodes is, for a pass-through node, the graph's own copy (node and runnable), never the builder's object — a Parallel / ChainBranch hands the same *graphNode to every chain it is appended to", 2)
+	{
+		fNodes := w.Field("compose", "graph", "nodes")
+		fCr := w.Field("compose", "graphNode", "cr")
+		fPT := w.Field("compose", "composableRunnable", "isPassthrough")
+		crT := w.Named("compose", "composableRunnable")
+		fromNodesMap := func(v ssa.Value) bool {
+			u, ok := v.(*ssa.UnOp)
+			if !ok || u.Op != token.MUL {
+				return false
+			}
+			fa, ok := u.X.(*ssa.FieldAddr)
+			if !ok || !sameField(fieldVarOfAddr(fa), fCr) {
+				return false
+			}
+			x := fa.X
+			if e, ok := x.(*ssa.Extract); ok {
+				x = e.Tuple
+			}
+			lk, ok := x.(*ssa.Lookup)
+			return ok && isLoadOfField(lk.X, fNodes)
+		}
+		var fns []*ssa.Function
+		for f := range w.AllFuncs() {
+			if pk := fnPkg(f); f.Blocks != nil && pk != nil && pk.Path() == modPath+"/compose" && origin(f) == f {
+				fns = append(fns, f)
+			}
+		}
+		sort.Slice(fns, func(i, j int) bool { return fns[i].String() < fns[j].String() })
+		written := map[string]bool{}
+		for _, f := range fns {
+			for _, fw := range fieldWrites(f) {
+				if fw.owner != nil && fw.owner.Obj() == crT.Obj() && fromNodesMap(fw.base) {
+					written[fw.field.Name()] = true
+				}
+			}
+		}
+		var wl []string
+		for k := range written {
+			wl = append(wl, k)
+		}
+		sort.Strings(wl)
+		ownCopy := func(v ssa.Value) bool {
+			a, ok := v.(*ssa.Alloc)
+			if !ok {
+				return false
+			}
+			okCr := false
+			for _, ref := range *a.Referrers() {
+				fa, isFA := ref.(*ssa.FieldAddr)
+				if !isFA || !sameField(fieldVarOfAddr(fa), fCr) {
+					continue
+				}
+				for _, r2 := range *fa.Referrers() {
+					if st, isSt := r2.(*ssa.Store); isSt && st.Addr == fa {
+						if _, isAlloc := st.Val.(*ssa.Alloc); isAlloc {
+							okCr = true
+						}
+					}
+				}
+			}
+			return okCr
+		}
+		notPassthrough := func(g guard) bool {
+			if !g.pol && isLoadOfField(g.cond, fPT) {
+				return true
+			}
+			return guardIsNil(g, func(v ssa.Value) bool { return isLoadOfField(v, fCr) })
+		}
+		for _, f := range fns {
+			instrs(f, func(in ssa.Instruction) {
+				mu, ok := in.(*ssa.MapUpdate)
+				if !ok || !isLoadOfField(mu.Map, fNodes) {
+					return
+				}
+				if len(wl) == 0 {
+					r.Info("C20.inferred-type-into-own-node", w.fname(f)+" stores a node into g.nodes", mu.Pos(), "nothing is written through g.nodes into a node's runnable")
+					return
+				}
+				bad := ""
+				var walk func(v ssa.Value, pred, blk *ssa.BasicBlock, d int)
+				walk = func(v ssa.Value, pred, blk *ssa.BasicBlock, d int) {
+					if d > 6 {
+						bad = "phi chain too deep"
+						return
+					}
+					if ph, ok := v.(*ssa.Phi); ok {
+						for i, e := range ph.Edges {
+							walk(e, ph.Block().Preds[i], ph.Block(), d+1)
+						}
+						return
+					}
+					if ownCopy(v) {
+						return
+					}
+					if pred != nil {
+						for _, g := range append(guardsOf(pred), guardsOfEdge(pred, blk)...) {
+							if notPassthrough(g) {
+								return
+							}
+						}
+					}
+					bad = valText(v) + " is stored as it came"
+				}
+				walk(mu.Value, nil, nil, 0)
+				r.Check(bad == "", "C20.inferred-type-into-own-node", w.fname(f)+" stores a node into g.nodes", mu.Pos(), "an own copy (node and runnable) unless the node is known not to be a pass-through; fields written through g.nodes: "+strings.Join(wl, ", "), bad+": the inferred "+strings.Join(wl, "/")+" of a pass-through node are written into the builder's object — a Parallel or ChainBranch with AddPassthrough that was appended to a Chain[string, …] before makes NewChain[int, …]().AppendParallel(p).Compile() fail 'start node's output type[int] and end node's input type[string] mismatch' (with a Chain[any, …] a run-time check against the FIRST chain's type sits on the START edge): the same construction sequence does not give the same outcome")
+			})
+		}
+		r.Check(len(wl) > 0, "C20.inferred-type-into-own-node", "types are inferred into the nodes of g.nodes", w.Fn("compose", "graph.updateToValidateMap").Pos(), strings.Join(wl, ", ")+" written through g.nodes[…].cr", "no write through g.nodes[…].cr found: the rule's anchor moved")
+	}
+
 	// ---- presence
 	r.Rule("C20.presence", "ill-formed constructions are error arms that cannot reach the corresponding write", 8)
 	START, END := "start", "end"
